@@ -46,6 +46,10 @@ class K:
     def k(self, p):
         """Runtime docstring of k."""
         return p
+
+
+class Child(K):
+    """Runtime docstring of Child (it only inherits k)."""
 '''
 STUB = '''from typing import overload
 
@@ -67,15 +71,27 @@ class K:
 
     def k(self, p: int) -> str: ...
     def stub_method(self) -> None: ...
+
+
+class Child(K):
+    @overload
+    def k(self, p: int) -> str: ...
+    @overload
+    def k(self, p: bytes) -> bytes: ...
 '''
 PLACEMENTS = ["sibling", "in-package", "stubs-pkg"]
-REQUESTS = {"sibling": ["zpkg", "zpkg.f", "zpkg.K.k"], "in-package": ["zpkg", "zpkg.mod", "zpkg.mod.f", "zpkg.mod.K.k"], "stubs-pkg": ["zpkg", "zpkg.mod", "zpkg.mod.f", "zpkg.mod.K.k"]}
+FACADE = "facade"  # zpkg/__init__.py is `from _zpkg import *` (the griffe/_griffe layout), with zpkg/__init__.pyi next to it
+REQUESTS = {"facade": ["zpkg", "zpkg", "zpkg", "zpkg"], "sibling": ["zpkg", "zpkg.f", "zpkg.K.k"], "in-package": ["zpkg", "zpkg.mod", "zpkg.mod.f", "zpkg.mod.K.k"], "stubs-pkg": ["zpkg", "zpkg.mod", "zpkg.mod.f", "zpkg.mod.K.k"]}
 
 
 def _files(placement, stubs_sp):
     sp0, sp1 = ROOT + "/sp0", ROOT + "/sp1"
     files = {sp0 + "/other.txt": "", sp1 + "/other.txt": ""}
-    if placement == "sibling":
+    if placement == FACADE:
+        files[sp0 + "/_zpkg/__init__.py"] = RUNTIME
+        files[sp0 + "/zpkg/__init__.py"] = "from _zpkg import *\n"
+        files[sp0 + "/zpkg/__init__.pyi"] = STUB
+    elif placement == "sibling":
         files[sp0 + "/zpkg.py"] = RUNTIME
         files[sp0 + "/zpkg.pyi"] = STUB
     elif placement == "in-package":
@@ -112,7 +128,7 @@ def _observe(mod):
 
 def _holder(loader, placement):
     top = loader.modules_collection["zpkg"]
-    return top if placement == "sibling" else top["mod"]
+    return top if placement in ("sibling", FACADE) else top["mod"]
 
 
 def _run(placement, stubs_sp, request, keys):
@@ -166,6 +182,10 @@ def _clauses(mod):
         return "method K.k: types not from the stubs or docstring lost"
     if str(k.members["attr"].annotation) != "int":
         return "K.attr annotation not from the stubs"
+    if kk.overloads:
+        return f"K.k got an overload list ({[str(o.returns) for o in kk.overloads]}) although its own stub declares none (written through the inherited member of a subclass?)"
+    if "Child" not in mod.members or mod.members["Child"].docstring is None:
+        return "class Child lost or its runtime docstring dropped"
     sm = k.members.get("stub_method")
     if sm is None or sm.runtime is not False:
         return "stub-only method K.stub_method missing or not marked runtime=False"
@@ -175,8 +195,32 @@ def _clauses(mod):
 _BASE: dict = {}  # canonical observation per placement (independent of the symbolic inputs): computed once per process
 
 
+def _facade_clauses(mod):
+    """The facade gets its names from a wildcard import of the private sibling package: they exist at runtime (CPython binds them),
+    so the stubs must not turn them into stub-only members; only what the stubs alone declare is flagged runtime=False."""
+    for name in ("RUNTIME_ONLY", "value", "f", "g", "K", "Child"):
+        mem = mod.members.get(name)
+        if mem is None:
+            return f"facade: runtime name {name} (bound by `from _zpkg import *`) is missing"
+        if mem.runtime is False:
+            return f"facade: {name} exists at runtime (CPython binds it through the wildcard import) but is flagged runtime=False"
+        if not mem.is_alias or mem.target_path != "_zpkg." + name:
+            return f"facade: {name} is no longer the alias to _zpkg.{name} the wildcard import creates ({'alias to ' + mem.target_path if mem.is_alias else mem.kind.value})"
+    so = mod.members.get("STUB_ONLY")
+    if so is None or so.runtime is not False:
+        return "facade: stub-only member STUB_ONLY missing or not marked runtime=False"
+    return ""
+
+
 def _body(placement, stubs_sp, req, keys):
     request = REQUESTS[placement][req % len(REQUESTS[placement])]
+    if placement == FACADE:
+        mod = _run(placement, stubs_sp, request, keys)
+        msg = _facade_clauses(mod)
+        if msg:
+            return fail(f"placement=facade order-keys={keys}: {msg}")
+        cover("placement:facade")
+        return True
     label = f"placement={placement} stubs-in-second-search-path={stubs_sp} request={request} order-keys={keys}"
     mod = _run(placement, stubs_sp, request, keys)
     msg = _clauses(mod)
@@ -199,15 +243,16 @@ def _body(placement, stubs_sp, req, keys):
 
 @obligation(
     pid="C19", name="placements", timeout=tiered(280, 1200), path_timeout=120.0,
-    shards=lambda: [(f"placement={p}", None, [dict(placement=p)]) for p in PLACEMENTS],
-    pre=lambda placement, stubs_sp, req, k0, k1, k2: 0 <= req < 4 and all(0 <= k <= tiered(1, 2) for k in (k0, k1, k2)) and (placement == "stubs-pkg" or not stubs_sp),
+    shards=lambda: [(f"placement={p}", None, [dict(placement=p)]) for p in [*PLACEMENTS, FACADE]],
+    pre=lambda placement, stubs_sp, req, k0, k1, k2: 0 <= req < 4 and all(0 <= k <= tiered(1, 2) for k in (k0, k1, k2)) and (placement == "stubs-pkg" or not stubs_sp) and (placement != FACADE or req == 0),
     drives=[ModuleFinder.find_spec, ModuleFinder.find_package, ModuleFinder.iter_submodules, GriffeLoader.load, GriffeLoader._load_package, GriffeLoader._load_submodule, MG.merge_stubs, MG._merge_function_stubs, MG._merge_stubs_members],
     bounds={"placements": PLACEMENTS, "requests": REQUESTS, "listing order": f"three sort keys 0..{tiered(1, 2)} distributed round-robin over the files (every relative order of mod.py / mod.pyi and of __init__.py / __init__.pyi)",
             "module": "one runtime module (attributes, functions with every parameter kind, a class with a method) and stubs with a stub-only parameter in the middle of a signature, overloads, stub-only members"},
     value_symbolic=["k0..k2 (enumeration order of every directory)", "stubs_sp (which search path holds the stubs package)", "req (which object path is requested)"], selectors=["placement (driver-bound)"],
     stubs=FS_STUBS, assumptions=["the symbolic inputs are realised (the engine forks over every feasible value) before the loader runs natively on the in-memory file system"],
-    must_cover=["placement:sibling", "placement:in-package", "placement:stubs-pkg", "non-trivial-order"],
-    grid=lambda seed: [dict(placement=p, stubs_sp=(p == "stubs-pkg" and s), req=r, k0=a, k1=b, k2=1 - a) for p in PLACEMENTS for s in (False, True) for r in (0, 1, 3) for a, b in ((0, 1), (1, 0))],
+    must_cover=["placement:sibling", "placement:in-package", "placement:stubs-pkg", "placement:facade", "non-trivial-order"],
+    grid=lambda seed: [dict(placement=p, stubs_sp=(p == "stubs-pkg" and s), req=r, k0=a, k1=b, k2=1 - a) for p in PLACEMENTS for s in (False, True) for r in (0, 1, 3) for a, b in ((0, 1), (1, 0))]
+    + [dict(placement=FACADE, stubs_sp=False, req=0, k0=a, k1=b, k2=0) for a, b in ((0, 1), (1, 0))],
     replay=lambda **kw: _replay(**kw),
 )
 def placements(placement: str, stubs_sp: bool, req: int, k0: int, k1: int, k2: int) -> bool:
@@ -239,10 +284,10 @@ F.os = OS()
 loader = L.GriffeLoader(search_paths=sps, allow_inspection=False)
 loader.load(request, find_stubs_package=True)
 top = loader.modules_collection["zpkg"]
-mod = top if placement == "sibling" else top["mod"]
+mod = top if placement in ("sibling", "facade") else top["mod"]
 sys.path.insert(0, sys.argv[4])
 import harness.C19_placements as H
-print(json.dumps({"clauses": H._clauses(mod), "observation": H._observe(mod)}))
+print(json.dumps({"clauses": (H._facade_clauses(mod) if placement == "facade" else H._clauses(mod)), "observation": (None if placement == "facade" else H._observe(mod))}))
 '''
 
 
@@ -288,6 +333,8 @@ def _replay(placement, stubs_sp, req, k0, k1, k2):
         return True, f"loading raised on the real directory: {res['error']}"
     if res["clauses"]:
         return True, "real directory: " + res["clauses"]
+    if placement == FACADE:
+        return False, "real directory: the facade clauses hold"
     for other in PLACEMENTS:
         base = _real_run(other, False, "zpkg", [0, 0, 0])
         if "error" in base or base["observation"] != res["observation"]:
